@@ -36,10 +36,13 @@ ASSUMPTIONS = [
 ]
 
 _BASE = None
+_TMP = []
 
 
-def _fresh_battery(seed='0'):
+def _fresh_battery(seed='0', extra=None):
     env = dict(os.environ)
+    if extra:
+        env.update(extra)
     env['PYTHONHASHSEED'] = str(seed)
     env['VERIF_REPO'] = REPO
     env['PYTHONPATH'] = VERIF
@@ -53,11 +56,17 @@ def shards(tier, seed):
     r = _fresh_battery('0')
     if r.returncode != 0:
         raise RuntimeError('battery failed in a fresh interpreter: ' + r.stderr[-500:])
+    rr = _fresh_battery('0', {'BATTERY_ORDER': 'rev'})
+    fd2, path2 = tempfile.mkstemp(prefix='pmc_c17_rev_', suffix='.json')
+    with os.fdopen(fd2, 'w') as fh:
+        fh.write(rr.stdout.splitlines()[0] if rr.returncode == 0 and rr.stdout else '{}')
+    _TMP.append(path2)
     fd, path = tempfile.mkstemp(prefix='pmc_c17_base_', suffix='.json')
     with os.fdopen(fd, 'w') as fh:
         fh.write(r.stdout.splitlines()[0])
     _BASE = path
     anames = list(B.CORPUS) + list(B.MARKERLESS)
+    out.append({'sub': 'order', 'base': path, 'rev': path2, 'bounds': 'the whole battery in a fresh interpreter, forward and in reverse order: every result identical'})
     for a in anames:
         out.append({'sub': 'purity', 'arg': a, 'bounds': f'{len(B.calls())} calls x {len(anames)} arguments, in-place operations applied to every result'})
     for a1 in anames:
@@ -83,13 +92,21 @@ def shards(tier, seed):
 
 
 def teardown():
-    if _BASE and os.path.exists(_BASE):
-        os.unlink(_BASE)
+    for p in [_BASE] + _TMP:
+        if p and os.path.exists(p):
+            os.unlink(p)
 
 
 def cases(shard):
     sub = shard['sub']
     C = B.calls()
+    if sub == 'order':
+        fwd = json.load(open(shard['base']))
+        rev = json.load(open(shard['rev']))
+        for k in sorted(set(fwd) | set(rev)):
+            if not k.startswith('cli'):
+                yield {'key': k, 'fwd': fwd.get(k), 'rev': rev.get(k)}
+        return
     if sub == 'purity':
         for c, (needs, fn) in C.items():
             if B.applicable(c, needs, shard['arg']):
@@ -193,6 +210,14 @@ def _inplace_ops(result, args):
 
 def check(case, ctx):
     sub = ctx.sub
+    if sub == 'order':
+        ctx.transitions += 1
+        if case['fwd'] != case['rev']:
+            ctx.fail(f'result of {case["key"]} depends on which calls were made before it in the same interpreter (battery run forward vs. in reverse order)',
+                     expected=case['rev'], observed=case['fwd'])
+        else:
+            ctx.nontrivial += 1
+        return
     if sub == 'purity':
         _check_purity(case, ctx)
     elif sub == 'history':
@@ -221,6 +246,12 @@ def _check_purity(case, ctx):
     if after != before:
         ctx.fail(f'{case["call"]} changed its argument', expected=before, observed=after)
         return
+    if isinstance(r, dict) and 'selfcheck' in r:
+        got, ref = (B.canonical(x) for x in r['selfcheck'])
+        if got != ref:
+            ctx.fail(f'{case["call"]}: the result of a chain of calls differs from the same queries on an identical, freshly built object', expected=ref, observed=got)
+            return
+        r = None
     if r is not None:
         _inplace_ops(r, a)
         after = B.snapshot(a)
